@@ -764,6 +764,12 @@ func (fr *Frame) execSelect(st *State, x *ssa.Select) *Val {
 	fr.c.addFact(st, And(Le(Num(lo), idx), Lt(idx, Num(int64(len(x.States))))))
 	vals := []*Val{scalar(tt.At(0).Type(), idx), scalar(tt.At(1).Type(), Fresh("selok", SBool))}
 	gf, hasGhost := fr.c.eng.ghostFields["chclosed"]
+	for _, s := range x.States {
+		if s.Dir == types.SendOnly {
+			fr.callSiteClauses(st, x, nil, []*Val{fr.get(st, s.Chan), fr.get(st, s.Send)})
+			break
+		}
+	}
 	for i, s := range x.States {
 		ch := fr.get(st, s.Chan)
 		if s.Dir == types.SendOnly && hasGhost {
